@@ -7,7 +7,8 @@
    included when they are spelled), t = ends with '/' after the last component.
    Render(p) is the byte string handed to the implementation.  The relative
    paths of plain components of the property are those with a = FALSE and only
-   normal components; the degenerate paths are "", "/", ".", ".." and "x/..".
+   normal components; the degenerate paths (no final component) are "", "/", "//",
+   ".", "..", "/..", "/.", "x/.." and their spellings with a trailing '/'.
 
    Marker(loc, lang) is the table of the property statement:
      3DS games (FE13, FE14, FE15): a language DIRECTORY; none for Japanese in
@@ -41,8 +42,9 @@ Join(cs) == IF Len(cs) = 0 THEN <<>>
             ELSE IF Len(cs) = 1 THEN cs[1]
             ELSE cs[1] \o <<SLASH>> \o Join(Tail(cs))
 
+\* a = TRUE, c = <<>>, t = TRUE spells "//"
 Render(p) == (IF p.a THEN <<SLASH>> ELSE <<>>) \o Join(p.c)
-             \o (IF p.t /\ Len(p.c) > 0 THEN <<SLASH>> ELSE <<>>)
+             \o (IF p.t /\ (Len(p.c) > 0 \/ p.a) THEN <<SLASH>> ELSE <<>>)
 
 ButLast(s) == SubSeq(s, 1, Len(s) - 1)
 LastOf(s) == s[Len(s)]
@@ -103,10 +105,10 @@ Marker(loc, lang) ==
 NormalC(c) == Len(c) > 0 /\ c # DotC /\ c # DotDotC /\ \A i \in 1..Len(c) : c[i] # SLASH
 Plain(p) == ~p.a /\ Len(p.c) > 0 /\ \A i \in 1..Len(p.c) : NormalC(p.c[i])
 Degenerate(p) ==
-  \/ Len(p.c) = 0                                          \* "" and "/"
-  \/ ~p.a /\ p.c = <<DotC>>                                \* "."
-  \/ ~p.a /\ p.c = <<DotDotC>>                             \* ".."
-  \/ ~p.a /\ Len(p.c) = 2 /\ NormalC(p.c[1]) /\ p.c[2] = DotDotC   \* "x/.."
+  \/ Len(p.c) = 0                                          \* "", "/", "//"
+  \/ p.c = <<DotC>>                                        \* ".", "./", "/."
+  \/ p.c = <<DotDotC>>                                     \* "..", "../", "/.."
+  \/ ~p.a /\ Len(p.c) = 2 /\ NormalC(p.c[1]) /\ p.c[2] = DotDotC   \* "x/..", "x/../"
 \* the paths the property speaks about
 InScope(p) == Plain(p) \/ Degenerate(p)
 HasFinal(p) == Plain(p)
